@@ -167,6 +167,29 @@ func roundTrip(kind string, recs []rec, api string) {
 		}
 		return map[string]interface{}{"api": api, "kind": kind, "records": gs, "record_index": i, "observed": extra}
 	}
+	// "-flat": the geometries handed to the encoder have their vertex slices cut
+	// from one flat buffer each (spare capacity reaching into the next part); the
+	// encoder must not write to them
+	label := api
+	wrecs := recs
+	var written []func() string
+	if strings.HasSuffix(api, "-flat") {
+		api = strings.TrimSuffix(api, "-flat")
+		wrecs = make([]rec, len(recs))
+		for i, r := range recs {
+			g, w := geomgen.FlatBacked(r.g)
+			wrecs[i] = r
+			wrecs[i].g = g
+			written = append(written, w)
+		}
+	}
+	defer func() {
+		for i, w := range written {
+			if m := w(); m != "" {
+				rep.Violation(fmt.Sprintf("%s|%s|caller-buffer-written", label, kind), detail(i, m))
+			}
+		}
+	}()
 	// ---- write
 	if api == "struct" || api == "struct-string-last" {
 		var arch interface{}
@@ -192,7 +215,7 @@ func roundTrip(kind string, recs []rec, api string) {
 			rep.Violation(fmt.Sprintf("struct|%s|NewEncoder-failed", kind), detail(-1, fmt.Sprint(p, err)))
 			return
 		}
-		for i, r := range recs {
+		for i, r := range wrecs {
 			var d interface{}
 			switch t := r.g.(type) {
 			case geom.Point:
@@ -228,7 +251,7 @@ func roundTrip(kind string, recs []rec, api string) {
 			rep.Violation(fmt.Sprintf("fields|%s|NewEncoderFromFields-failed", kind), detail(-1, fmt.Sprint(p, err)))
 			return
 		}
-		for i, r := range recs {
+		for i, r := range wrecs {
 			var eerr error
 			if p := try(func() { eerr = e.EncodeFields(r.g, r.a.I, r.a.S, r.a.F) }); p != "" || eerr != nil {
 				rep.Violation(fmt.Sprintf("fields|%s|EncodeFields-failed", kind), detail(i, fmt.Sprint(p, eerr)))
@@ -338,7 +361,7 @@ func main() {
 		return
 	}
 	rep = report.New("C16", tier, "model_checking")
-	rep.Rule = "E1: for each of Point, MultiPoint, LineString, MultiLineString, Polygon, *Bounds: every shape with 1..3 parts/rings x 1..3 vertices (rings closed and unclosed, both windings by rotation of the pattern list) with coordinates from 19 finite float64 patterns, as single records, ordered pairs and triples of a reduced shape list, and the empty file; attributes int {0,-1,+-999999999,9999999999,42}, string {empty, 1 byte, 50 bytes, UTF-8, inner spaces, leading/trailing space}, float {0,-1.5,1/3,1e10,123456789.1234567891,-1e-10}; multi-line strings also with empty parts after the first; the struct API (tags/names in different letter case between writer and reader; for points also a record type whose last field is the string), the field API, and the field API with geometry-only reads (no field names) on every other record. Oracle: same number and order of records, every returned geometry and attribute map still intact after the last row, bit-identical coordinates part by part (unclosed rings closed, boxes as 5-vertex rectangles), ints equal, strings equal, floats within 1e-10. Non-trivial = files with >= 2 records or >= 2 parts."
+	rep.Rule = "E1: for each of Point, MultiPoint, LineString, MultiLineString, Polygon, *Bounds: every shape with 1..3 parts/rings x 1..3 vertices (rings closed and unclosed, both windings by rotation of the pattern list) with coordinates from 19 finite float64 patterns, as single records, ordered pairs and triples of a reduced shape list, and the empty file; attributes int {0,-1,+-999999999,9999999999,42}, string {empty, 1 byte, 50 bytes, UTF-8, inner spaces, leading/trailing space}, float {0,-1.5,1/3,1e10,123456789.1234567891,-1e-10}; multi-line strings also with empty parts after the first; the struct API (tags/names in different letter case between writer and reader; for points also a record type whose last field is the string), the field API, and the field API with geometry-only reads (no field names) on every other record. the struct and field APIs again with the written geometries cut from flat vertex buffers (not written to). Oracle: same number and order of records, every returned geometry and attribute map still intact after the last row, bit-identical coordinates part by part (unclosed rings closed, boxes as 5-vertex rectangles), ints equal, strings equal, floats within 1e-10. Non-trivial = files with >= 2 records or >= 2 parts."
 	tmpRoot = "/dev/shm"
 	if st, err := os.Stat(tmpRoot); err != nil || !st.IsDir() {
 		tmpRoot = os.TempDir()
@@ -406,7 +429,7 @@ func main() {
 			}
 			return g
 		}
-		apis := []string{"struct", "fields", "fields-mixed"}
+		apis := []string{"struct", "fields", "fields-mixed", "struct-flat", "fields-flat"}
 		if kind == "Point" {
 			apis = append(apis, "struct-string-last")
 		}
